@@ -1,6 +1,7 @@
 import Orx.KSRun
 import Orx.GenThms.Range
 import Orx.GenThms.Slice
+import Orx.GenThms.Loops
 /-! # C16 Boundary arithmetic: extreme ranges and chunk sizes behave mathematically -/
 namespace Orx.Props.C16
 open Orx Orx.KS
@@ -98,5 +99,20 @@ theorem source_chunk_zero (len c : Nat) (evs dr) (hc : c < W) :
       simp only [h, ↓reduceIte, this]; omega
   have h2 : chunkOf (pullRange len c 0) = none := by simp [chunkOf, h3]
   rw [h1, h2]
+
+
+/-! ## chunk size zero in the default loops, as in the source -/
+section SourceLoops
+open Orx.RSL Orx.GenL Orx.GenThms.Loops
+
+/-- **`for_each` / `enumerate_for_each` / `fold` with chunk size zero panic as documented** (the `assert!` of
+`default_fns`), before any pull: the tree is the panic leaf, for every length -/
+theorem source_loops_zero_chunk_panics {ρ' : Type} (len fuel neutral : Nat) (f1 : Closure1) (f2 : ClosureIdx) (f3 : ClosureFold) :
+    (Loops.for_each fuel ⟨len⟩ 0 f1 : PF ρ' Unit) = .panic "assert" ∧
+    (Loops.for_each_with_ids fuel ⟨len⟩ 0 f2 : PF ρ' Unit) = .panic "assert" ∧
+    (Loops.fold fuel ⟨len⟩ 0 f3 neutral : PF ρ' Nat) = .panic "assert" :=
+  ⟨for_each_zero_panics len fuel f1, for_each_with_ids_zero_panics len fuel f2, fold_zero_panics len fuel neutral f3⟩
+
+end SourceLoops
 
 end Orx.Props.C16
